@@ -319,6 +319,23 @@ func sitesToSet(ss []Site) map[ssa.Instruction]bool {
 	return m
 }
 
+// noReturn: the instruction never returns control (log.Crit, panic, os.Exit).
+func noReturn(in ssa.Instruction) bool {
+	switch x := in.(type) {
+	case *ssa.Panic:
+		return true
+	case *ssa.Call:
+		switch calleeName(&x.Call) {
+		case "log.Crit", "os.Exit", "builtin.panic", "(*testing.common).Fatal", "(*testing.common).Fatalf":
+			return true
+		}
+	}
+	return false
+}
+
+// GSites: the path executes one of the instructions (stores, sends, ...).
+func GSites(desc string, ss []Site) Guard { return GCall(desc, ss) }
+
 // GCall: the path executes one of the call sites.
 func GCall(desc string, ss []Site) Guard {
 	return Guard{Desc: desc, Steps: []Step{{Instrs: sitesToSet(ss)}}, Sites: len(ss)}
@@ -414,6 +431,10 @@ func mustPassFrom(f *ssa.Function, start *ssa.BasicBlock, startIdx int, targets 
 			first = false
 		}
 		for _, in := range n.st.b.Instrs[i0:] {
+			if noReturn(in) {
+				done = true
+				break
+			}
 			if tset[in] {
 				if _, dup := bad[in]; !dup {
 					var path []int
@@ -662,4 +683,102 @@ func (c *Ctx) LoopLatches(f *ssa.Function, cd Cond) []Site {
 // value matching x (rangeindex loops; the header tests k < len(x)).
 func (c *Ctx) RangeLatches(f *ssa.Function, x VPat) []Site {
 	return c.LoopLatches(f, Cmp(Any(), token.LSS, Len(x)))
+}
+
+// ArgIs: the idx-th argument (receiver excluded) of every listed call matches
+// pat. Emits one obligation per call.
+func (c *Ctx) ArgIs(name string, f *ssa.Function, calls []Site, what string, idx int, pat VPat, pdesc string) {
+	c.Funcs[f] = true
+	if len(calls) == 0 {
+		c.Undecided(name+"/"+fnName(f)+"/"+what, f.Pos(), "no call site matched ("+what+")")
+		return
+	}
+	for _, s := range calls {
+		as := callArgs(s.Instr.(ssa.CallInstruction).Common())
+		construct := name + "/" + fnName(f) + "/" + what
+		if idx < len(as) && pat(as[idx]) {
+			c.OK(construct, s.Pos(), fmt.Sprintf("argument %d is %s", idx, pdesc))
+		} else {
+			d := "<missing>"
+			if idx < len(as) {
+				d = describe(as[idx])
+			}
+			c.Bad(construct, s.Pos(), fmt.Sprintf("argument %d of %s is %s, expected %s", idx, what, d, pdesc))
+		}
+	}
+}
+
+// RecvIs: the receiver of every listed method call matches pat.
+func (c *Ctx) RecvIs(name string, f *ssa.Function, calls []Site, what string, pat VPat, pdesc string) {
+	c.Funcs[f] = true
+	if len(calls) == 0 {
+		c.Undecided(name+"/"+fnName(f)+"/"+what, f.Pos(), "no call site matched ("+what+")")
+		return
+	}
+	for _, s := range calls {
+		r := callRecv(s.Instr.(ssa.CallInstruction).Common())
+		construct := name + "/" + fnName(f) + "/" + what
+		if r != nil && pat(r) {
+			c.OK(construct, s.Pos(), "receiver is "+pdesc)
+		} else {
+			c.Bad(construct, s.Pos(), fmt.Sprintf("receiver of %s is %s, expected %s", what, describe(r), pdesc))
+		}
+	}
+}
+
+// Each applies pred to every site, one obligation per site.
+func (c *Ctx) Each(name string, f *ssa.Function, sites []Site, what string, pred func(s Site) (bool, string)) {
+	c.Funcs[f] = true
+	if len(sites) == 0 {
+		c.Undecided(name+"/"+fnName(f)+"/"+what, f.Pos(), "no site matched ("+what+")")
+		return
+	}
+	for _, s := range sites {
+		ok, d := pred(s)
+		c.Check(ok, name+"/"+fnName(f)+"/"+what, s.Pos(), d, d)
+	}
+}
+
+// ErrUsed: the error result of each listed call is tested on some branch
+// (x != nil / x == nil), returned, or stored to a field (flushErr idiom); it
+// is not discarded.
+func (c *Ctx) ErrUsed(name string, f *ssa.Function, calls []Site, what string) {
+	c.Funcs[f] = true
+	if len(calls) == 0 {
+		c.Undecided(name+"/"+fnName(f)+"/"+what, f.Pos(), "no call site matched ("+what+")")
+		return
+	}
+	for _, s := range calls {
+		call, ok := s.Instr.(*ssa.Call)
+		construct := name + "/" + fnName(f) + "/" + what
+		if !ok {
+			c.Bad(construct, s.Pos(), "error of deferred/go call is discarded")
+			continue
+		}
+		vals := errValues(call)
+		used := false
+		for v := range vals {
+			refs := v.Referrers()
+			if refs == nil {
+				continue
+			}
+			for _, r := range *refs {
+				switch x := r.(type) {
+				case *ssa.BinOp:
+					used = true
+				case *ssa.Return:
+					used = true
+				case *ssa.Store:
+					if _, isAlloc := x.Addr.(*ssa.Alloc); !isAlloc && x.Val == v {
+						used = true
+					}
+				case *ssa.Call:
+					used = true // passed on (log.Crit("..", err), wrap helpers)
+				case *ssa.MakeInterface:
+					used = true
+				}
+			}
+		}
+		c.Check(used, construct, s.Pos(), "error result is used", "error result of "+what+" is discarded")
+	}
 }
